@@ -76,3 +76,28 @@ class ClientSendTap:
         if self._orig is not None:
             AIOKafkaClient.send = self._orig
             self._orig = None
+
+
+def prepare_codec(scratch):
+    """runner prepare() hook for sim checks: build the compiled codec from the working tree's .pyx once."""
+    import os
+    from vf import extbuild
+    d = os.path.join(scratch, "ext-plain")
+    try:
+        lib = extbuild.build("plain", d)
+        return {"ext_dir": lib}
+    except Exception as e:  # no compiler / build failure: the compiled codec cannot be judged
+        return {"ext_dir": None, "ext_build_error": repr(e)[:500]}
+
+
+def setup_codec(params, pure_python=False):
+    """Call before importing aiokafka in a shard worker."""
+    import os
+    if pure_python:
+        os.environ["AIOKAFKA_NO_EXTENSIONS"] = "1"
+        return "pure-python"
+    if params.get("ext_dir"):
+        from vf import extbuild
+        extbuild.install_finder(params["ext_dir"])
+        return "compiled(from working tree)"
+    return "compiled(in-tree .so)"
